@@ -634,30 +634,7 @@ func (t *Tr) ret(in *ssa.Return) {
 	}
 	// ghost assignments performed at return
 	for _, gs := range t.c.GhostSets {
-		id, _ := gs.Target.Fun.(*SIdent)
-		var g *GhostDecl
-		if id != nil {
-			g = t.w.CS.Ghosts[id.Name]
-		}
-		if g == nil || !g.IsVar {
-			efail("%s:%d: ghostset target is not a ghost var", gs.File, gs.Line)
-		}
-		gsort, ptys, rty := t.ghostSort(g)
-		var as []string
-		for i, a := range gs.Target.Args {
-			v, err := env.evalArg(a, ptys[i])
-			if err != nil {
-				efail("%s:%d: ghostset: %v", gs.File, gs.Line, err)
-			}
-			as = append(as, v.T.S)
-		}
-		rv, err := env.evalArg(gs.Val, rty)
-		if err != nil {
-			efail("%s:%d: ghostset: %v", gs.File, gs.Line, err)
-		}
-		h := t.heapGet(t.cur, "G_"+g.Name, gsort)
-		t.heapSet(t.cur, "G_"+g.Name, gsort, nestedStore(h, as, rv.T.S))
-		env.cur = t.cur
+		t.applyGhostSet(env, gs)
 	}
 	for i, en := range t.c.Ensures {
 		s, err := env.evalClause(en.E)
@@ -672,6 +649,34 @@ func (t *Tr) ret(in *ssa.Return) {
 	}
 	t.frameAtReturn()
 	t.retCount++
+}
+
+// applyGhostSet performs `G(args) := val` in the current state.
+func (t *Tr) applyGhostSet(env *Env, gs GhostSet) {
+	id, _ := gs.Target.Fun.(*SIdent)
+	var g *GhostDecl
+	if id != nil {
+		g = t.w.CS.Ghosts[id.Name]
+	}
+	if g == nil || !g.IsVar {
+		efail("%s:%d: ghostset target is not a ghost var", gs.File, gs.Line)
+	}
+	gsort, ptys, rty := t.ghostSort(g)
+	var as []string
+	for i, a := range gs.Target.Args {
+		v, err := env.evalArg(a, ptys[i])
+		if err != nil {
+			efail("%s:%d: ghostset: %v", gs.File, gs.Line, err)
+		}
+		as = append(as, v.T.S)
+	}
+	rv, err := env.evalArg(gs.Val, rty)
+	if err != nil {
+		efail("%s:%d: ghostset: %v", gs.File, gs.Line, err)
+	}
+	h := t.heapGet(t.cur, "G_"+g.Name, gsort)
+	t.heapSet(t.cur, "G_"+g.Name, gsort, nestedStore(h, as, rv.T.S))
+	env.cur = t.cur
 }
 
 func (t *Tr) slice(in *ssa.Slice) {
